@@ -229,11 +229,19 @@ def resolve_early(case, user=True):
     vars_ = case.get("vars", {})
     on_p = platform != "default"
 
-    def soft(value, layered, where):
-        try:
-            return substitute(value, layered, where)
-        except Undefined:
+    def soft(value, layered, where, depth=0):
+        # early binding is partial: references that are defined in the defining scope are bound there, the others stay
+        # in place and are bound later in the component scope
+        if not isinstance(value, str) or depth > 50:
             return value
+
+        def rep(m):
+            name = m.group(1)
+            if name not in layered:
+                return m.group(0)
+            v = layered[name][1]
+            return soft(v, layered, name, depth + 1) if isinstance(v, str) else text_of(v)
+        return REF.sub(rep, value)
 
     def bind(defs, scope_layers, below):
         layered = dict(below)
